@@ -152,6 +152,114 @@ def _replay_in(case, arity, path):
     return viol
 
 
+# ---------------------------------------------------------------------- drape models (spec/merge/MergeDrape.tla)
+DRAPE_CFG = {"quick": [("MergeDrape2.cfg", 700), ("MergeDrape3.cfg", 300)],
+             "thorough": [("MergeDrape2.cfg", None), ("MergeDrape3.cfg", None)]}
+
+
+def _bottom(b):
+    k, c, j = b
+    if k == 0:                      # ghost cell: no thickness, its bottom is the top of the ghost prism (c = position token)
+        return coord(c)[2]
+    return coord(k * 10 + c)[2] - 1.5 * (j + 1)
+
+
+def _replay_drape(item):
+    case, on_file = item
+    import os
+    from geoh5py import Workspace
+    from geoh5py.objects import DrapeModel
+    from geoh5py.shared.merging import DrapeModelMerger
+    from ..pool import scratch
+    viol = []
+
+    def bad(sig, msg):
+        viol.append({"signature": sig, "summary": msg, "case": {"drape": True, "case": case}})
+
+    path = None
+    if on_file:
+        path = os.path.join(scratch(), f"merge_drape_{os.getpid()}.geoh5")
+        if os.path.exists(path):
+            os.remove(path)
+    try:
+        ws = Workspace.create(path) if path else Workspace()
+        ins = []
+        types = {}
+        for k, o in enumerate(case["ins"], 1):
+            prisms, layers, first = [], [], 0
+            for c, nl in enumerate(o["nl"]):
+                prisms.append(coord(k * 10 + c) + [first, nl])
+                for j in range(nl):
+                    layers.append([c, j, _bottom((k, c, j))])
+                first += nl
+            obj = DrapeModel.create(ws, name=f"in{k}", layers=np.array(layers, dtype=float), prisms=np.array(prisms, dtype=float))
+            for d in o["has"]:
+                name = "ab"[d - 1]
+                et = types.get(d) or {"primitive_type": "FLOAT", "name": f"type_{name}"}
+                data = obj.add_data({name: {"values": np.array([val(k * 100 + d * 10 + i) for i in range(first)]),
+                                            "association": "CELL", "entity_type": et}})
+                types[d] = data.entity_type
+            ins.append(obj)
+        before = [(o.prisms.copy(), o.layers.copy(), {c.name: np.array(c.values).copy() for c in o.children if hasattr(c, "values")})
+                  for o in ins]
+        try:
+            out = DrapeModelMerger.merge_objects(ws, ins, name="merged")
+        except Exception as exc:  # pylint: disable=broad-except
+            bad(f"merge-raises:{type(exc).__name__}", f"{type(exc).__name__}: {exc}")
+            return viol
+        exp = case["out"]
+        want_p = np.array([coord(p["pos"]) + [p["first"], p["count"]] for p in exp["prisms"]], dtype=float)
+        want_l = np.array([[ly["prism"], ly["k"], _bottom(ly["bottom"])] for ly in exp["layers"]], dtype=float)
+        present = [d + 1 for d, arr in enumerate(exp["data"]) if arr]
+
+        def compare(obj, tag):
+            if obj.prisms is None or obj.prisms.shape != want_p.shape or not np.allclose(obj.prisms, want_p):
+                bad(tag + "drape-prisms", f"merged prisms {None if obj.prisms is None else obj.prisms.tolist()} expected {want_p.tolist()}")
+                return
+            if obj.layers is None or obj.layers.shape != want_l.shape or not np.allclose(obj.layers, want_l):
+                bad(tag + "drape-layers", f"merged layers {None if obj.layers is None else obj.layers.tolist()} expected {want_l.tolist()}")
+                return
+            got = {c.name: np.array(c.values, dtype=float) for c in obj.children
+                   if hasattr(c, "association") and hasattr(c, "values") and c.values is not None}
+            for d in present:
+                name = "ab"[d - 1]
+                want = np.array([np.nan if t < 0 else val(t) for t in exp["data"][d - 1]])
+                have = got.pop(name, None)
+                if have is None:
+                    bad(tag + "data-missing", f"merged drape model lacks data {name}")
+                elif have.shape != want.shape or not np.array_equal(have, want, equal_nan=True):
+                    packed = np.array([np.nan if t < 0 else val(t) for t in case["packed"][d - 1]])
+                    sig = "drape-data-packed" if have.shape == packed.shape and np.array_equal(have, packed, equal_nan=True) \
+                        else "data-misplaced"
+                    bad(tag + sig, f"data {name}: got {have.tolist()} expected {want.tolist()}")
+            if got:
+                bad(tag + "data-extra", f"unexpected merged data {sorted(got)}")
+
+        compare(out, "")
+        for o, (p0, l0, d0) in zip(ins, before):
+            now = {c.name: np.array(c.values) for c in o.children if hasattr(c, "values")}
+            if not (np.array_equal(o.prisms, p0) and np.array_equal(o.layers, l0) and now.keys() == d0.keys()
+                    and all(np.array_equal(now[k], d0[k], equal_nan=True) for k in d0)):
+                bad("input-changed", f"input {o.name} was modified by the merge")
+        if path and not viol:
+            uid = out.uid
+            ws.close()
+            with Workspace(path, mode="r") as ws2:
+                re = ws2.get_entity(uid)[0]
+                if re is None:
+                    bad("stored-merged-missing", "merged drape model not found after re-opening the file")
+                else:
+                    compare(re, "stored-")
+        return viol
+    finally:
+        try:
+            ws.close()
+        except Exception:  # pylint: disable=broad-except
+            pass
+        if path and os.path.exists(path):
+            os.remove(path)
+
+
 def run(tier, seed):
     states = trans = 0
     total_cases = replayed = 0
@@ -171,7 +279,20 @@ def run(tier, seed):
         replayed += len(chosen)
         per_cfg[cfg] = {"cases_enumerated_by_tlc": len(cases), "replayed": len(chosen), "replay_wall_s": round(wall, 1)}
         samples.append({"cfg": cfg, "class": CLASSES[arity], "case": chosen[len(chosen) // 2]})
+    for cfg, limit in DRAPE_CFG[tier]:
+        res, cases = funcheck.enumerate_cases("merge", "MergeDrape", cfg, workers=1)
+        states += res.distinct
+        trans += res.generated
+        chosen, full = funcheck.sample(cases, limit, seed)
+        exhaustive = exhaustive and full
+        v, wall = funcheck.replay_all(_replay_drape, [(c, i % 2 == 0) for i, c in enumerate(chosen)])
+        viol += v
+        total_cases += len(cases)
+        replayed += len(chosen)
+        per_cfg[cfg] = {"cases_enumerated_by_tlc": len(cases), "replayed": len(chosen), "replay_wall_s": round(wall, 1)}
+        samples.append({"cfg": cfg, "class": "DrapeModel", "case": chosen[len(chosen) // 2]})
     neg = funcheck.expect_violation("merge", "Merge", "MergeAsBuilt.cfg", "CellsJoinSameCoords")
+    neg2 = funcheck.expect_violation("merge", "MergeDrape", "MergeDrapePacked.cfg", "DataFollows")
     if replayed < 100:
         raise MachineryError("too few cases replayed")
     return {
@@ -181,7 +302,8 @@ def run(tier, seed):
             "states": states, "transitions": trans, "traces_validated_against_impl": replayed,
             "samples": samples, "cases_enumerated": total_cases, "exhaustive": exhaustive,
             "per_config": per_cfg,
-            "negative_control": f"Deviations={{OffsetByMaxIndex}} violates CellsJoinSameCoords ({neg.violated})",
+            "negative_control": f"Deviations={{OffsetByMaxIndex}} violates CellsJoinSameCoords ({neg.violated}); "
+                                f"MergeDrape with Deviations={{PackedData}} violates DataFollows ({neg2.violated})",
             "rule": "TLC enumerates every input list within the constants of each cfg and checks "
                     "VerticesInOrder, CellsJoinSameCoords, DataFollows, InputsUnchanged on the spec's Merged(); "
                     "each replayed case builds the inputs with geoh5py, runs the real merger and compares "
@@ -189,7 +311,9 @@ def run(tier, seed):
         },
         "assumptions": [
             "bounds: see cfg files in spec/merge (2-3 inputs, <=3(4) vertices, <=2 cells, <=2(4) data keys)",
-            "float data only (NumericData); drape models are not covered (see DESIGN.md 11)",
+            "float data only (NumericData)",
+            "drape models (spec/merge/MergeDrape.tla): 2-3 inputs of 2-3 prisms with 1-2 layers each, <=2 CELL data keys; prisms, "
+            "layers (ghost prisms included) and data compared; every 2nd case merged in a real file and read back",
             "every 6th replayed case is merged in a real file and the merged object is read back by a fresh Workspace",
             "quick tier replays a seeded sample of the enumerated cases; thorough replays all of the 2-input spaces",
         ],
@@ -197,5 +321,7 @@ def run(tier, seed):
 
 
 def replay(doc):
+    if doc["case"].get("drape"):
+        return {"violations": _replay_drape((doc["case"]["case"], True)), "coverage": {"replayed": 1}}
     v = _replay((doc["case"]["case"], doc["case"]["arity"]))
     return {"violations": v, "coverage": {"replayed": 1}}
